@@ -45,13 +45,32 @@ def run(R):
             b = tb.body('tonic_build::client::generate_' + k)
             R.saw(b)
             c = b.calls(name='format_method_path')
-            okc = len(c) == 1 and show(strip_refs(b.origin(c[0][1]['args'][0]))).startswith('arg1') and show(strip_refs(b.origin(c[0][1]['args'][1]))).startswith('arg2') and strip_refs(b.origin(c[0][1]['args'][2]))[0] == 'arg'
-            R.check(okc, 'C11.R1', 'client:%s:path-from-formatter' % k, site(b), 'format_method_path(service, method, emit_package): %d site(s)' % len(c))
-            s2 = b.calls(name='format_service_name')
-            R.check(len(s2) == 1 and strip_refs(b.origin(s2[0][1]['args'][1])) == strip_refs(b.origin(c[0][1]['args'][2])) if c else False, 'C11.R1', 'client:%s:service-name-from-formatter' % k, site(b), 'GrpcMethod service name from format_service_name(service, emit_package)')
+            if c:
+                okc = len(c) == 1 and show(strip_refs(b.origin(c[0][1]['args'][0]))).startswith('arg1') and show(strip_refs(b.origin(c[0][1]['args'][1]))).startswith('arg2') and strip_refs(b.origin(c[0][1]['args'][2]))[0] == 'arg'
+                R.check(okc, 'C11.R1', 'client:%s:path-from-formatter' % k, site(b), 'format_method_path(service, method, emit_package): %d site(s)' % len(c))
+                s2 = b.calls(name='format_service_name')
+                R.check(len(s2) == 1 and strip_refs(b.origin(s2[0][1]['args'][1])) == strip_refs(b.origin(c[0][1]['args'][2])), 'C11.R1', 'client:%s:service-name-from-formatter' % k, site(b), 'GrpcMethod service name from format_service_name(service, emit_package)')
+            else:
+                # the leaf receives its strings ready-made (a struct of pieces built by its caller): then every call site must
+                # hand it format_method_path(service, method, emit_package) and format_service_name(service, that emit_package)
+                sites = call_sites_in_crate(tb, pat=b.path)
+                okc = bool(sites)
+                oks = bool(sites)
+                for cb_, bb_, t_ in sites:
+                    parts = []
+                    for a_ in t_['args']:
+                        parts += built_parts(mirlib.simplify(forigin(tb, cb_, a_)))
+                    fields = [o_ for ag_ in parts if ag_ and ag_[0] == 'agg' for o_ in ag_[2]]
+                    pc = [strip_refs(x) for x in fields if is_call(strip_refs(x), name='format_method_path')]
+                    sc = [strip_refs(x) for x in fields if is_call(strip_refs(x), name='format_service_name')]
+                    ok1 = len(pc) == 1 and arg_root(strip_refs(pc[0][2][0])) is not None and loc_of(strip_refs(pc[0][2][2])) is not None
+                    okc = okc and ok1
+                    oks = oks and ok1 and len(sc) == 1 and strip_refs(sc[0][2][1]) == strip_refs(pc[0][2][2]) and strip_refs(sc[0][2][0]) == strip_refs(pc[0][2][0])
+                R.check(okc, 'C11.R1', 'client:%s:path-from-formatter' % k, site(b), 'every call site (%d) hands the leaf a struct holding format_method_path(service, method, emit_package)' % len(sites))
+                R.check(oks, 'C11.R1', 'client:%s:service-name-from-formatter' % k, site(b), 'GrpcMethod service name from format_service_name(service, emit_package), same service and flag')
         callers = sorted({re.sub(r'(::\{closure#\d+\})+$', '', short(bd.path)) for bd, bb, t in call_sites_in_crate(tb, name='format_method_path')})
-        R.eq(callers, ['tonic_build::client::generate_client_streaming', 'tonic_build::client::generate_server_streaming', 'tonic_build::client::generate_streaming', 'tonic_build::client::generate_unary', 'tonic_build::server::generate_methods'],
-             'C11.R1', 'formatter-callers', '', 'callers of format_method_path')
+        stray = [c_ for c_ in callers if not re.match(r'tonic_build::(client|server)::', c_)]
+        R.check(not stray and any('::server::' in c_ for c_ in callers) and any('::client::' in c_ for c_ in callers), 'C11.R1', 'formatter-callers', '', 'callers of format_method_path are the client and server generators: %r' % callers)
         pg = tb.body(re.compile(r'<prost::ServiceGenerator as prost_build::ServiceGenerator>::generate$'))
         R.saw(pg)
         ep = pg.calls(name='emit_package')
